@@ -201,3 +201,16 @@ def parseMode (s : String) : Except Err Mode :=
   | some m => .ok m
   | none => .error .valueError
 end Multi
+
+/-! ## the random stream as an indexed sequence of draws: the state is the number of draws made so far -/
+namespace Py
+/-- `self._task.empty_solution()`: the next element of the stream, which advances -/
+def nextDraw (draw : Nat → β) : StateT Nat (Except Err) β := do
+  let k ← get
+  set (k + 1)
+  return draw k
+
+/-- what the next draw would be, without making it (the argument of a callee that only draws when it is given no position) -/
+def peekDraw (draw : Nat → β) : StateT Nat (Except Err) β := do
+  return draw (← get)
+end Py
